@@ -12,6 +12,7 @@ import GcmpyModel.Driver.C17
 import GcmpyModel.Driver.Covers
 import GcmpyModel.Driver.C11
 import GcmpyModel.Driver.C19
+import GcmpyModel.Driver.C11Loop
 /-! Line protocol: one JSON request per line on stdin, one JSON reply per line on stdout.
     The driver only *executes* the model's definitions; it is outside the proofs. -/
 open Lean Gcmpy.Driver
@@ -34,7 +35,7 @@ def dispatch (j : Json) : R Json := do
   | "c17" => C17.handle j
   | "c09" => Covers.c09 j
   | "c10" => Covers.c10 j
-  | "c11" => C11.handle j
+  | "c11" => C11Loop.handle j
   | "c19" => C19.handle j
   | "ping" => pure (obj [("pong", Json.bool true)])
   | _ => throw s!"unknown op {op}"
